@@ -62,7 +62,8 @@ def main() -> int:
             sh(["git", "-C", "/repo", "worktree", "remove", "--force", str(wt)])
             sh(["git", "-C", "/repo", "worktree", "prune"])
             shutil.rmtree(ROOT / "replay" / pid, ignore_errors=True)
-        results[commit] = res
+        multi = sum(1 for e2 in (d["findings"] if isinstance(d, dict) else d) if e2.get("commit") == commit) > 1
+        results[f"{commit}:{pid}" if multi else commit] = res
         out_path.write_text(json.dumps(results, indent=1) + "\n")
         print(f"{pid} {commit} clean_revert={res.get('reverts_cleanly')} caught={res.get('caught')} listed={bool(res.get('matching_listed'))} {res.get('signatures', [''])[:2]}", flush=True)
     return 0
